@@ -85,7 +85,8 @@ CHECKS["C05"] = {
                   "is parsed with and without the line by the real code; listings must be identical and both reads must succeed; the character sets are passed in "
                   "buffers that held other sets during an unrelated preceding read; part insert-long: comment lines of 8 Ki .. 40000 characters with every token "
                   "of 1 (quick) / <= 2 (thorough) structural characters placed at the offsets around 8192, 16384 and 32768; part insert-format: ten texts that "
-                  "mean something to printf-style functions (%, %s, %n, 90%, over-wide widths)",
+                  "mean something to printf-style functions (%, %s, %n, 90%, over-wide widths); part insert-openquote: base files whose values are v, \"q r (quote still open) and \"q\" r (quote closed early), "
+                  "texts of length <= 2 (quick) / 3 (thorough) - the first sentence of the statement holds after any line",
     "level_note": "bounded: N<=2, L<=3 (quick) / L<=4 and N<=3 with L<=3 (thorough); trusted: only the equality test (differential, no hand-written expectation)",
     "rule": "case = (configuration, base file, insertion point, indentation, comment char, text); non-trivial = text contains a structural character, or the line "
             "is indented, or it directly follows an entry line; distinct by construction",
@@ -96,6 +97,8 @@ CHECKS["C05"] = {
         {"name": "insert-long", "harness": "c05", "variant": "asan", "quick": ["--p0", 1, "--p1", 1, "--p3", 1], "thorough": ["--p0", 2, "--p1", 2, "--p3", 1],
          "deadline_share": 0.15, "floor": {"quick": 10000, "thorough": 100000}},
         {"name": "insert-format", "harness": "c05", "variant": "asan", "quick": ["--p0", 2, "--p3", 2], "thorough": ["--p0", 3, "--p3", 2],
+         "deadline_share": 0.1, "floor": {"quick": 10000, "thorough": 100000}},
+        {"name": "insert-openquote", "harness": "c05", "variant": "asan", "quick": ["--p0", 2, "--p1", 2, "--p4", 1], "thorough": ["--p0", 2, "--p1", 3, "--p4", 1],
          "deadline_share": 0.1, "floor": {"quick": 10000, "thorough": 100000}},
         {"name": "insert-3lines", "harness": "c05", "variant": "asan", "tiers": ["thorough"], "thorough": ["--p0", 3, "--p1", 3],
          "deadline_share": 0.35, "floor": {"thorough": 1000000}},
@@ -447,12 +450,13 @@ SCHED_LD = ["-Wl," + ",".join("--wrap=" + w for w in SCHED_WRAP)]
 CHECKS["C18"] = {
     "engine": "E3",
     "technique": "preemption-bounded systematic scheduling (iterative context bounding) of real threads at link-time interposed libc calls of the library, plus a separate free-running ThreadSanitizer pass of the same thread bodies",
-    "level_text": "every unordered pair of six thread bodies (read/query/write, build/set/merge, layered read with options, malformed file, layered read on the "
-                  "process-wide defaults - drop-ins-only mode in one thread, two-directory read in the other -, a write that fails followed by one that succeeds; each on private files "
+    "level_text": "every unordered pair of seven thread bodies (read/query/write, build/set/merge, layered read with options, malformed file, layered read on the "
+                  "process-wide defaults - drop-ins-only mode in one thread, two-directory read in the other -, a write that fails followed by one that succeeds, reads under a "
+                  "permission requirement that was set before the threads started, one thread's directory satisfying it and the other's not; each on private files "
                   "and objects) is executed under EVERY schedule with at most B preemptions, a scheduling point being every libc call the library makes (malloc, "
                   "free, strdup, asprintf, snprintf, getline, fopen, lstat, scandir, strto*, ... and every call that takes or releases a file descriptor: open, openat, close, fdopen, opendir, closedir); every thread's complete result text (incl. the mode of the files it created) must equal that of the body "
                   "run alone; ASan active. Unsynchronised accesses that do not straddle a libc call are left to the separate free-running ThreadSanitizer pass "
-                  "(16 threads x 20 rounds x 6 bodies) whose suppressions name exactly the exempt last-error-location record",
+                  "(16 threads x 20 rounds x 7 bodies) whose suppressions name exactly the exempt last-error-location record",
     "level_note": "bounded: pairs of the full bodies with <= 1 preemption and the failing-write body against the file-reading bodies (shortened) with <= 2 preemptions (quick); additionally triples with <= 1 and pairs of shortened bodies with <= 2 preemptions (thorough); preemption only at libc calls; no weak-memory "
                   "effects; the TSan pass observes one family of free-running schedules (it can miss, it cannot falsely accuse); documented process-wide setters and econf_errLocation are not called concurrently",
     "rule": "case = (combination of bodies, schedule); non-trivial = at least one preemption taken; distinct = distinct choice vectors; evaluations counts complete executions",
